@@ -206,7 +206,7 @@ def new_keys(table: Dict[Any, Any], n0: int) -> List[Any]:
 
 
 def run_one(ctx: C.Ctx, hist: List[List[int]], pool: List[Dict[str, Any]], record: bool = True,
-            strict_calls: Tuple[int, ...] = ()) -> Optional[Tuple[str, Any, Any]]:
+            strict_calls: Tuple[int, ...] = (), fresh: Optional[List[str]] = None) -> Optional[Tuple[str, Any, Any]]:
     """run a history (lists of pool indices) on pdfminer and on the model; returns the first property failure"""
     from pdfminer import settings
     from pdfminer.fontmetrics import FONT_METRICS
@@ -253,6 +253,9 @@ def run_one(ctx: C.Ctx, hist: List[List[int]], pool: List[Dict[str, Any]], recor
         # property on the implementation
         if cno < len(pool):
             alone[cno] = states[0]
+            if fresh is not None and failure is None and states[0] != fresh[cno]:
+                failure = ("a page rendered in this process (after its history) differs from the same page rendered "
+                           "in a FRESH python process", fresh[cno], states[0])
         elif failure is None and not strict:
             for i, st in zip(call, states):
                 if st != alone[i]:
@@ -321,6 +324,36 @@ def run_one(ctx: C.Ctx, hist: List[List[int]], pool: List[Dict[str, Any]], recor
     return failure
 
 
+def fresh_worker_main() -> None:
+    """in a FRESH python process: every page of the pool alone, numbering as in run_one"""
+    import json
+    import logging
+    import sys
+    logging.getLogger("pdfminer").setLevel(logging.ERROR)
+    pool = json.load(sys.stdin)
+    nm = Names()
+    for pg in pool:
+        page_tokens(pg, nm)
+    json.dump([render_call([pg], nm)[0] for pg in pool], sys.stdout)
+
+
+def fresh_process_states(pool: List[Dict[str, Any]]) -> Optional[List[str]]:
+    import json
+    import os
+    import subprocess
+    import sys
+    code = "import sys; sys.path.insert(0, %r); from harness.props import c12_globals as G; G.fresh_worker_main()" % C.TOOLS
+    env = dict(os.environ)
+    env["VERIF_REPO"] = C.REPO
+    env["PYTHONHASHSEED"] = str(len(pool) * 37 % 1000)
+    try:
+        p = subprocess.run([sys.executable, "-c", code], input=json.dumps(pool).encode(), capture_output=True,
+                           env=env, timeout=60)
+        return json.loads(p.stdout.decode())
+    except Exception:  # noqa: BLE001
+        return None
+
+
 def gen_case(rng, tag: str) -> Tuple[List[Dict[str, Any]], List[List[int]], Tuple[int, ...]]:
     serial = [0]
     pool = [gen_page(rng, tag, serial) for _ in range(rng.randint(4, 7))]
@@ -337,21 +370,29 @@ def run_globals(ctx: C.Ctx, n: int) -> None:
     for k in range(n):
         tag = "s%sb%sk%d" % (ctx.seed, ctx.boost, k)
         pool, hist, strict_calls = gen_case(ctx.rng, tag + "x")
-        f = run_one(ctx, hist, pool, strict_calls=strict_calls)
+        fresh = fresh_process_states(pool) if k < 2 else None
+        if k < 2:
+            if fresh is None or len(fresh) != len(pool):
+                ctx.disagree("c12.globals.fresh-process", {"pool": pool[:1]}, "no answer from the fresh process", None)
+                fresh = None
+            else:
+                ctx.branch("globals:fresh-process-baseline")
+        f = run_one(ctx, hist, pool, strict_calls=strict_calls, fresh=fresh)
         if f is not None:
             what, exp, got = f
 
             def still(sub):
-                r = run_one(ctx, sub, pool, record=False)
+                r = run_one(ctx, sub, pool, record=False, fresh=fresh)
                 return r is not None and r[0] == what
             small = C.ddmin(hist, still, max_tests=25) if len(hist) > 1 else hist
             if not small or not still(small):
                 small = hist
-            ctx.fail(C.Failure(what, {"gpool": pool, "ghist": small}, exp, got, {"op": "globals"}))
+            ctx.fail(C.Failure(what, {"gpool": pool, "ghist": small, "gfresh": fresh is not None}, exp, got, {"op": "globals"}))
             return
 
 
 def replay_globals(ctx: C.Ctx, inp: Dict[str, Any]) -> None:
-    f = run_one(ctx, inp["ghist"], inp["gpool"])
+    fresh = fresh_process_states(inp["gpool"]) if inp.get("gfresh") else None
+    f = run_one(ctx, inp["ghist"], inp["gpool"], fresh=fresh)
     if f is not None:
         ctx.fail(C.Failure(f[0], inp, f[1], f[2], {"op": "globals"}))
